@@ -18,9 +18,9 @@ CFG = {
                  "of < > \" ' and (unless the program cuts captured text) every & starts one of the five entities, and the escaped poison is "
                  "present; autoescape off or `| safe` => the poison appears verbatim; the engine's per-template flag equals 'name ends with a "
                  "configured suffix'; all 128 ASCII code points through the real escaper equal the generated table. c01vm: the REAL finalized chunks "
-                 "and component table run on Model/VM.v in the world of Model/WorldC01.v; output/error class compared with the engine; for special-free literal text (strict cases) the "
-                 "guarded world must agree (every RenderBodyComponent body was minted by EndCapture), the theorem's hypotheses "
-                 "are re-checked and the model output must be clean. Non-trivial = more than 20 output characters from a program using at least "
+                 "and component table run on Model/VM.v in the world of Model/WorldC01.v; output/error class compared with the engine; on every case every chunk that can run must pass the "
+                 "decidable side condition of the theorems (Model/CapCheck.v bodies_from_capture: the body of every RenderBodyComponent was pushed by "
+                 "EndCapture); for special-free literal text (strict cases) the theorem's hypotheses are re-checked and the model output must be clean. Non-trivial = more than 20 output characters from a program using at least "
                  "one routing construct (all sweep and hand-written programs count). The sweep (5 mint points x 6 flag-preserving operations x "
                  "2 sinks x 7 routings = 420 programs) is exhaustive in the thorough tier, 1/7 of it in the quick tier.",
     "trusted_base": TB_COMMON + [
@@ -37,8 +37,9 @@ CFG = {
                  "parsing/ast.rs ComponentDefinition::build_context, Type::matches_value; tera.rs set_templates_auto_escape/autoescape_on"],
     "assumptions": ["theorems (A) cover the special case 'literal text and constants contain no special character'; literal text with specials "
                     "is covered by the oracle and the sink-level theorems",
-                    "the body operand of RenderBodyComponent is produced by EndCapture (true of compiler output; checked on every real chunk "
-                    "by comparing guarded and unguarded model runs); C01_body_mint_needs_capture shows it is needed",
+                    "the theorems carry the decidable chunk-level side condition bodies_from_capture (abstract interpretation of value and loop stack, "
+                    "proved sound inside the invariant); it is evaluated on every real chunk of every correspondence case; "
+                    "C01_body_mint_needs_capture shows the unconditional claim is false",
                     "filters/functions hand out no dirty safe-flagged string when given none (no use of safe); fuel 8000 steps per model render",
                     "safe_flag_origin is not proved as a single reachability statement"],
     "exhaustive_when": "sweep_exhaustive",
@@ -51,8 +52,8 @@ MANIFEST = (
     "characters outside an arbitrary set `ok` whenever the escaper's output, the literal text and the formatted scalars are, whatever unflagged data "
     "the context holds and however it is routed (all 56 instructions, nested runs for include/block/super()/component by induction on fuel); "
     "instantiated with the generated escape_html table this is the property for special-free literal text. The three mint points, the flag-keeping "
-    "index/slice, the two sinks, autoescape off / safe (verbatim) and the suffix rule have their own theorems. body.mark_safe() is shown to rely on "
-    "the compiler (witness) and guarded explicitly. Tied to the code by T-gen (is_safe arms, escape map, suffixes) and by running real finalized "
+    "index/slice, the two sinks, autoescape off / safe (verbatim) and the suffix rule have their own theorems. body.mark_safe() relies on the compiler "
+    "(witness): the theorems carry a decidable chunk check (body pushed by EndCapture) that is run on every real chunk. Tied to the code by T-gen (is_safe arms, escape map, suffixes) and by running real finalized "
     "chunks on the model; the general case (specials in literal text) is decided per render by the oracle.",
     "§6 C01",
 )
